@@ -153,3 +153,64 @@ Example ex_api_prog :
   forallb (fun f => api_getter_law ex_sch 0 nm h (Some 0%nat) f && api_getter_law ex_sch 0 nm h None f) (seq 0 6) = true /\
   api_reset_law ex_sch 0 nm h (Some 0%nat) = true.
 Proof. vm_compute. repeat split; reflexivity. Qed.
+
+From CP Require Import EnumProg EnumProgProofs.
+(* ---- generated enum types and the per-file type tables (Model/EnumProg.v; translator tie: engine enumprog) -------------------
+   The index an enum's Descriptor() / Type() (hence String()) and a message's slowProtoReflect / Reset read is the position in
+   newFileInfo's flattened list; it is below the table length and distinct for distinct declarations *)
+Theorem enum_index_bound : EnumProgProofs.enum_index_bound_stmt.
+Proof. exact EnumProgProofs.enum_index_bound. Qed.
+Theorem enum_index_injective : EnumProgProofs.enum_index_injective_stmt.
+Proof. exact EnumProgProofs.enum_index_injective. Qed.
+Theorem message_index_bound : EnumProgProofs.message_index_bound_stmt.
+Proof. exact EnumProgProofs.message_index_bound. Qed.
+Theorem message_index_injective : EnumProgProofs.message_index_injective_stmt.
+Proof. exact EnumProgProofs.message_index_injective. Qed.
+(* the canonical program exists for every enum of the file the naming context describes *)
+Theorem canon_enum_total : EnumProgProofs.canon_enum_total_stmt.
+Proof. exact EnumProgProofs.canon_enum_total. Qed.
+(* the slot the canonical Descriptor() and Type() of enum e read is exactly the goTypes slot GenDeps.gen_tables assigns to e —
+   protoimpl.TypeBuilder pairs enumTypes[i] with goTypes[i] — so the descriptor a Go enum value reports is its own *)
+Theorem enum_descriptor_own : EnumProgProofs.enum_descriptor_own_stmt.
+Proof. exact EnumProgProofs.enum_descriptor_own. Qed.
+(* msgTypes[i] is paired with goTypes[len(enums) + i]: the slot a message's methods read is the message's own *)
+Theorem message_slot_own : EnumProgProofs.message_slot_own_stmt.
+Proof. exact EnumProgProofs.message_slot_own. Qed.
+(* the index path the deprecated EnumDescriptor() returns leads to the enum in the declaration tree *)
+Theorem enum_raw_path : EnumProgProofs.enum_raw_path_stmt.
+Proof. exact EnumProgProofs.enum_raw_path. Qed.
+(* E_name holds exactly the (number -> first declared name) pairs, each number once; the const block and E_value list every
+   declared value, aliases included, in declaration order *)
+Theorem enum_name_map : EnumProgProofs.enum_name_map_stmt.
+Proof. exact EnumProgProofs.enum_name_map. Qed.
+(* String() of the canonical program renders a number through the enum's own values: first declared name, = E_name *)
+Theorem enum_string_own : EnumProgProofs.enum_string_own_stmt.
+Proof. exact EnumProgProofs.enum_string_own. Qed.
+(* the executable form of the above, which the driver evaluates on every file of a run *)
+Theorem enum_law_holds : EnumProgProofs.enum_law_holds_stmt.
+Proof. exact EnumProgProofs.enum_law_holds. Qed.
+Theorem eprog_eqb_correct : EnumProgProofs.eprog_eqb_stmt.
+Proof. exact EnumProgProofs.eprog_eqb_correct. Qed.
+
+(* non-vacuity. file: enum p.F { Z = 0; }  message p.A { message B { enum D { X = 0; Y = 1; Y2 = 1; } } enum E { U = 0; } }
+   message p.C { enum G { V = 0; } }.  Flattened enum order: F, A.E, A.B.D, C.G — D (declared first in the text of A, one level
+   deeper) comes after E. D's methods read slot 2, its path is [0; 0; 0], the alias Y2 is left out of D_name and kept in the const
+   block, String() renders 1 as "Y". With the parent index (seed C19_r5: 0) the slot would be F's. *)
+Example ex_enum_prog :
+  let d : dfile := {| df_enums := [["F"]]; df_exts := [];
+                     df_msgs := [DM ["A"] [["E"]] [] [] [DM ["B"] [["D"]] [] [] []]; DM ["C"] [["G"]] [] [] []]; df_services := [] |} in
+  let f : efile := mkEFile d ["v"]
+      [ mkEInfo ["D"] ["A"; "_"; "B"; "_"; "D"] [mkEValue ["X"] ["B"; "_"; "X"] 0; mkEValue ["Y"] ["B"; "_"; "Y"] 1; mkEValue ["Y"; "2"] ["B"; "_"; "Y"; "2"] 1];
+        mkEInfo ["F"] ["F"] [mkEValue ["Z"] ["F"; "_"; "Z"] 0] ] in
+  all_enums d = [["F"]; ["E"]; ["D"]; ["G"]] /\
+  map dm_full (all_messages d) = [["A"]; ["C"]; ["B"]] /\
+  canon_enum f ["D"] =
+    Some (mkEProg ["A"; "_"; "B"; "_"; "D"] [(["B"; "_"; "X"], 0%Z); (["B"; "_"; "Y"], 1%Z); (["B"; "_"; "Y"; "2"], 1%Z)]
+            [(0%Z, ["X"]); (1%Z, ["Y"])] [(["X"], 0%Z); (["Y"], 1%Z); (["Y"; "2"], 1%Z)]
+            [EMEnum ["A"; "_"; "B"; "_"; "D"]; EMString ["A"; "_"; "B"; "_"; "D"]; EMDescriptor ["A"; "_"; "B"; "_"; "D"] ["v"] 2;
+             EMType ["A"; "_"; "B"; "_"; "D"] ["v"] 2; EMNumber ["A"; "_"; "B"; "_"; "D"]; EMRawDesc ["A"; "_"; "B"; "_"; "D"] ["v"] [0; 0; 0]%N]) /\
+  canon_msg f ["B"] = Some (MPIdx ["v"] 2 2) /\
+  enum_law f ["D"] = true /\ enum_law f ["F"] = true /\
+  match canon_enum f ["D"] with Some p => run_string f p 1 = Some (Some ["Y"]) /\ run_string f p 7 = Some None | None => False end /\
+  resolve_path d [0; 0; 0]%N = Some ["D"] /\ resolve_path d [1; 0]%N = Some ["G"] /\ resolve_path d [0]%N = Some ["F"].
+Proof. vm_compute. repeat split; reflexivity. Qed.
